@@ -166,6 +166,12 @@ theorem sv_drift_direction_float (sv : Float) (h1 : Scalar.le (0.1 : Float) sv =
   obtain ⟨w1, w2⟩ := sv_roundtrip_within_float sv h1 h2
   exact ⟨fun h => sv_roundtrip_mono_float _ _ h1 h2 w1 w2 h, fun h => sv_roundtrip_mono_float _ _ w1 w2 h1 h2 h⟩
 
+/-- non-vacuity: `1.31` drifts up, `2.75` drifts down (strictly), both in range; `BeatStable` holds for both. -/
+example : Scalar.le (0.1 : Float) (1.31 : Float) = true ∧ Scalar.le (2.75 : Float) (10 : Float) = true ∧
+    Scalar.lt (1.31 : Float) (svRoundtrip 1.31) = true ∧ Scalar.lt (svRoundtrip 2.75) (2.75 : Float) = true ∧
+    beatLenWritten (svRoundtrip 1.31) = beatLenWritten 1.31 ∧ beatLenWritten (svRoundtrip 2.75) = beatLenWritten 2.75 := by
+  decide +kernel
+
 /-- upward drift: the whole orbit is non-decreasing. -/
 theorem sv_orbit_up_float (sv : Float) (h1 : Scalar.le (0.1 : Float) sv = true) (h2 : Scalar.le sv (10 : Float) = true)
     (hu : Scalar.le sv (svRoundtrip sv) = true) (k : Nat) :
